@@ -308,7 +308,9 @@ pub fn txs_to_csv_table(txs: &Vec<CsvTx>) -> PlainCsvTable {
             optional_cols_in_use.insert(CsvCol::SPLIT_RATIO);
         }
         if let Some(af) = &tx.affiliate {
-            if *af != Affiliate::default() {
+            // The global affiliate (splits for all affiliates) is written as an
+            // empty cell, which is how it is specified in the first place.
+            if *af != Affiliate::default() && !af.is_global() {
                 optional_cols_in_use.insert(CsvCol::AFFILIATE);
             }
         }
@@ -388,6 +390,7 @@ pub fn txs_to_csv_table(txs: &Vec<CsvTx>) -> PlainCsvTable {
                 CsvCol::AFFILIATE => tx
                     .affiliate
                     .as_ref()
+                    .filter(|v| !v.is_global())
                     .map(|v| v.name().to_string())
                     .unwrap_or_else(empty),
                 CsvCol::MEMO => tx.memo.clone().unwrap_or_else(empty),
